@@ -20,6 +20,7 @@ import (
 	"encoding/json"
 	"fmt"
 	"io"
+	"sync"
 
 	"cuelabs.dev/go/oci/ociregistry"
 )
@@ -117,12 +118,19 @@ func (u unifier) MountBlob(ctx context.Context, fromRepo, toRepo string, digest 
 }
 
 type unifiedBlobWriter struct {
-	u    unifier
-	w    [2]ociregistry.BlobWriter
+	u unifier
+	w [2]ociregistry.BlobWriter
+
+	// mu makes sure that both underlying writers see the same sequence
+	// of operations when the writer is used concurrently,
+	// and guards size.
+	mu   sync.Mutex
 	size int64
 }
 
 func (w *unifiedBlobWriter) Write(buf []byte) (int, error) {
+	w.mu.Lock()
+	defer w.mu.Unlock()
 	r := bothResults(both(w.u, func(_ ociregistry.Interface, i int) t2[int] {
 		return mk2(w.w[i].Write(buf))
 	}))
@@ -134,18 +142,24 @@ func (w *unifiedBlobWriter) Write(buf []byte) (int, error) {
 }
 
 func (w *unifiedBlobWriter) Close() error {
+	w.mu.Lock()
+	defer w.mu.Unlock()
 	return bothResults(both(w.u, func(_ ociregistry.Interface, i int) t1 {
 		return mk1(w.w[i].Close())
 	})).err
 }
 
 func (w *unifiedBlobWriter) Cancel() error {
+	w.mu.Lock()
+	defer w.mu.Unlock()
 	return bothResults(both(w.u, func(_ ociregistry.Interface, i int) t1 {
 		return mk1(w.w[i].Cancel())
 	})).err
 }
 
 func (w *unifiedBlobWriter) Size() int64 {
+	w.mu.Lock()
+	defer w.mu.Unlock()
 	return w.size
 }
 
@@ -161,6 +175,8 @@ func (w *unifiedBlobWriter) ID() string {
 }
 
 func (w *unifiedBlobWriter) Commit(digest ociregistry.Digest) (ociregistry.Descriptor, error) {
+	w.mu.Lock()
+	defer w.mu.Unlock()
 	return bothResults(both(w.u, func(_ ociregistry.Interface, i int) t2[ociregistry.Descriptor] {
 		return mk2(w.w[i].Commit(digest))
 	})).get()
